@@ -347,4 +347,311 @@ theorem matchStream_fuel {lits n ps ds mm σ l}
     matchStream n lits ps ds mm σ ≠ .error (.fuel, l) :=
   (match_fuel_aux lits n).2 ps ds mm σ l h
 
+/-! ## Keys of the table -/
+
+@[simp] theorem Subst.keys_nil : Subst.keys [] = [] := rfl
+@[simp] theorem Subst.keys_cons {e : String × Datum × List Datum} {σ : Subst} :
+    Subst.keys (e :: σ) = e.1 :: Subst.keys σ := rfl
+@[simp] theorem Subst.keys_append {σ τ : Subst} :
+    Subst.keys (σ ++ τ) = Subst.keys σ ++ Subst.keys τ := by simp [Subst.keys]
+
+theorem Subst.mem_keys_insert {σ : Subst} {v x k} :
+    k ∈ Subst.keys (σ.insert v x) ↔ k = v ∨ k ∈ Subst.keys σ := by
+  induction σ with
+  | nil => simp [Subst.insert, Subst.keys]
+  | cons e σ ih =>
+    obtain ⟨k', y⟩ := e
+    simp only [Subst.insert]
+    split
+    · rename_i h; subst h; simp
+    · simp only [Subst.keys_cons, List.mem_cons, ih]
+      grind
+
+theorem Subst.push?_keys {σ : Subst} {v d σ'} (h : σ.push? v d = some σ') :
+    Subst.keys σ' = Subst.keys σ := by
+  induction σ generalizing σ' with
+  | nil => simp [Subst.push?] at h
+  | cons e σ ih =>
+    obtain ⟨k, f, more⟩ := e
+    simp only [Subst.push?] at h
+    split at h
+    · cases h; rfl
+    · simp only [Option.map_eq_some_iff] at h
+      obtain ⟨σ2, h2, rfl⟩ := h
+      simp [ih h2]
+
+theorem Subst.push?_isSome {σ : Subst} {v d} (h : v ∈ Subst.keys σ) :
+    ∃ σ', σ.push? v d = some σ' := by
+  induction σ with
+  | nil => simp at h
+  | cons e σ ih =>
+    obtain ⟨k, f, more⟩ := e
+    simp only [Subst.push?]
+    split
+    · exact ⟨_, rfl⟩
+    · rename_i hne
+      simp only [Subst.keys_cons, List.mem_cons] at h
+      rcases h with h | h
+      · exact absurd h.symm hne
+      · obtain ⟨σ', h'⟩ := ih h
+        exact ⟨_, by rw [h']; rfl⟩
+
+theorem pushAll_nil {σ : Subst} : pushAll [] σ = some σ := rfl
+
+theorem pushAll_cons {e : String × Datum × List Datum} {τ σ : Subst} :
+    pushAll (e :: τ) σ = (σ.push? e.1 e.2.1).bind (pushAll τ) := by
+  simp only [pushAll, List.foldl_cons, Option.bind_some]
+  cases σ.push? e.1 e.2.1 with
+  | some σ' => rfl
+  | none =>
+    simp only [Option.bind_none]
+    induction τ with
+    | nil => rfl
+    | cons e' τ ih => simpa using ih
+
+theorem pushAll_keys {τ σ σ' : Subst} (h : pushAll τ σ = some σ') :
+    Subst.keys σ' = Subst.keys σ := by
+  induction τ generalizing σ with
+  | nil => cases h; rfl
+  | cons e τ ih =>
+    rw [pushAll_cons] at h
+    simp only [Option.bind_eq_some_iff] at h
+    obtain ⟨σ1, h1, h2⟩ := h
+    rw [ih h2, Subst.push?_keys h1]
+
+theorem pushAll_isSome {τ σ : Subst} (h : ∀ k ∈ Subst.keys τ, k ∈ Subst.keys σ) :
+    ∃ σ', pushAll τ σ = some σ' := by
+  induction τ generalizing σ with
+  | nil => exact ⟨_, rfl⟩
+  | cons e τ ih =>
+    rw [pushAll_cons]
+    obtain ⟨σ1, h1⟩ := Subst.push?_isSome (σ := σ) (v := e.1) (d := e.2.1) (h _ (by simp))
+    rw [h1]
+    simp only [Option.bind_some]
+    apply ih
+    intro k hk
+    rw [Subst.push?_keys h1]
+    exact h k (by simp [hk])
+
+/-! ## The key-set invariant and absence of the `unwrap` panic -/
+
+theorem Pat.vars_spine (lits : List String) (p : Pat) :
+    p.vars lits = Pat.varsList lits p.spine.1 ++
+      (match p.spine.2 with | some t => t.vars lits | none => []) := by
+  fun_induction Pat.spine p with
+  | case1 a d xs t h ih =>
+    simp only [h] at ih
+    simp [Pat.vars, Pat.varsList, ih]
+  | case2 => simp [Pat.vars, Pat.varsList]
+  | case3 p h1 h2 => simp [Pat.varsList]
+
+/-- what a run of the matcher does to the keys of the table, `vs` being the variables of the
+pattern(s): keys are only added, only variables of the pattern are added, and after a success all
+of them are there -/
+structure KInv (vs : List String) (σ : Subst) (b : Bool) (σ' : Subst) : Prop where
+  mono : ∀ x ∈ Subst.keys σ, x ∈ Subst.keys σ'
+  only : ∀ x ∈ Subst.keys σ', x ∈ Subst.keys σ ∨ x ∈ vs
+  all : b = true → ∀ x ∈ vs, x ∈ Subst.keys σ'
+
+theorem KInv.refl_nil {σ b} : KInv [] σ b σ := ⟨fun _ h => h, fun _ h => .inl h, fun _ _ h => by simp at h⟩
+
+theorem KInv.fail {vs σ σ'} (h : KInv vs σ true σ') : KInv vs σ false σ' :=
+  ⟨h.mono, h.only, fun h => by cases h⟩
+
+theorem KInv.toFalse {vs σ b σ'} (h : KInv vs σ b σ') : KInv vs σ false σ' :=
+  ⟨h.mono, h.only, fun h => by cases h⟩
+
+theorem KInv.seq {vs1 vs2 σ σ1 b σ2} (h1 : KInv vs1 σ true σ1) (h2 : KInv vs2 σ1 b σ2) :
+    KInv (vs1 ++ vs2) σ b σ2 := by
+  refine ⟨fun x hx => h2.mono _ (h1.mono _ hx), fun x hx => ?_, fun hb x hx => ?_⟩
+  · rcases h2.only x hx with h | h
+    · rcases h1.only x h with h | h
+      · exact .inl h
+      · exact .inr (by simp [h])
+    · exact .inr (by simp [h])
+  · simp only [List.mem_append] at hx
+    rcases hx with h | h
+    · exact h2.mono _ (h1.all rfl _ h)
+    · exact h2.all hb _ h
+
+theorem KInv.weakenR {vs1 vs2 σ b σ1} (h1 : KInv vs1 σ b σ1) : KInv (vs1 ++ vs2) σ false σ1 :=
+  ⟨h1.mono, fun x hx => (h1.only x hx).imp id (fun h => by simp [h]), fun h => by cases h⟩
+
+theorem KInv.refl_false {vs σ} : KInv vs σ false σ :=
+  ⟨fun _ h => h, fun _ h => .inl h, fun h => by cases h⟩
+
+theorem KInv.trans {vs σ b1 σ1 b σ2} (h1 : KInv vs σ b1 σ1) (h2 : KInv vs σ1 b σ2) :
+    KInv vs σ b σ2 :=
+  ⟨fun x hx => h2.mono _ (h1.mono _ hx),
+   fun x hx => (h2.only x hx).elim (fun h => h1.only x h) .inr,
+   h2.all⟩
+
+theorem KInv.of_keys_eq {vs σ σ0 b σ'} (h : KInv vs σ b σ') (hk : Subst.keys σ = Subst.keys σ0) :
+    KInv vs σ0 b σ' :=
+  ⟨fun x hx => h.mono _ (hk ▸ hx), fun x hx => hk ▸ h.only x hx, h.all⟩
+
+theorem KInv.insert {σ : Subst} {v x} : KInv [v] σ true (σ.insert v x) :=
+  ⟨fun k hk => Subst.mem_keys_insert.2 (.inr hk),
+   fun k hk => (Subst.mem_keys_insert.1 hk).elim (fun h => .inr (by simp [h])) .inl,
+   fun _ k hk => Subst.mem_keys_insert.2 (.inl (by simpa using hk))⟩
+
+/-- the invariant of `multi_matches`: its variables are keys of the table -/
+def MMInv (lits : List String) (mm : Option Pat) (σ : Subst) : Prop :=
+  ∀ mp, mm = some mp → ∀ x ∈ mp.vars lits, x ∈ Subst.keys σ
+
+theorem match_keys_aux (lits : List String) : ∀ n,
+    (∀ p d σ, (∀ s l, matchDatum n lits p d σ ≠ .error (.panic s, l)) ∧
+      (∀ b σ', matchDatum n lits p d σ = .ok (b, σ') → KInv (p.vars lits) σ b σ')) ∧
+    (∀ ps ds mm σ, MMInv lits mm σ →
+      (∀ s l, matchStream n lits ps ds mm σ ≠ .error (.panic s, l)) ∧
+      (∀ b σ', matchStream n lits ps ds mm σ = .ok (b, σ') →
+        KInv (Pat.varsList lits ps) σ b σ')) := by
+  intro n
+  induction n with
+  | zero => simp
+  | succ n ih =>
+    obtain ⟨ihD, ihS⟩ := ih
+    have mmNone : ∀ σ, MMInv lits none σ := fun σ mp h => by cases h
+    constructor
+    · intro p d σ
+      cases hp : p.isListy
+      · cases p <;> simp [Pat.isListy] at hp
+        · simp [Pat.vars]; exact KInv.refl_nil
+        · simp [Pat.vars]; exact KInv.refl_nil
+        · rw [matchDatum_vec]
+          cases d <;> simp [Pat.vars] <;> try exact KInv.refl_false
+          rename_i ps ds loc
+          have := ihS ps ds none σ (mmNone σ)
+          simpa using this
+        · rename_i v
+          rw [matchDatum_ident]
+          cases hv : lits.contains v
+          · simp only [Pat.vars, hv, Bool.false_eq_true, if_false]
+            refine ⟨by simp, fun b σ' h => ?_⟩
+            cases h; exact KInv.insert
+          · simp only [Pat.vars, hv, if_true]
+            refine ⟨by simp, fun b σ' h => ?_⟩
+            cases h; exact KInv.refl_nil
+        · rw [matchDatum_prim]; simp [Pat.vars]; exact KInv.refl_nil
+      · cases hd : d.isListy
+        · rw [matchDatum_listy_atom hp hd]; simp; exact KInv.refl_false
+        · rw [matchDatum_listy hp hd, Pat.vars_spine]
+          obtain ⟨np, kp⟩ := ihS p.spine.1 d.spine.1 none σ (mmNone σ)
+          split
+          · rename_i e he
+            refine ⟨fun s l h => ?_, fun b σ' h => by cases h⟩
+            cases h; exact np _ _ he
+          · rename_i σ1 he
+            refine ⟨fun s l h => (by cases h), fun b σ' h => ?_⟩
+            cases h; exact (kp _ _ he).weakenR
+          · rename_i σ1 he
+            have k1 := kp _ _ he
+            split
+            · rename_i lp ld hlp hld
+              obtain ⟨np2, kp2⟩ := ihD lp ld σ1
+              simp only [hlp]
+              exact ⟨np2, fun b σ' h => k1.seq (kp2 _ _ h)⟩
+            · rename_i hlp hld
+              refine ⟨fun s l h => (by cases h), fun b σ' h => ?_⟩
+              cases h; simpa [hlp] using k1
+            · refine ⟨fun s l h => (by cases h), fun b σ' h => ?_⟩
+              cases h; exact k1.weakenR
+    · intro ps ds mm σ hmm
+      cases ps with
+      | nil => cases ds <;> simp [Pat.varsList] <;> first | exact KInv.refl_nil | exact KInv.refl_false
+      | cons p ps =>
+        cases ds with
+        | nil =>
+          cases hp : p.isEllipsis
+          · rw [matchStream_cons_nil_ne hp]; simp; exact KInv.refl_false
+          · cases p <;> simp [Pat.isEllipsis] at hp
+            cases mm with
+            | none => simp; exact KInv.refl_false
+            | some mp =>
+              rw [matchStream_ell_nil_some]
+              simpa [Pat.varsList, Pat.vars] using ihS ps [] (some mp) σ hmm
+        | cons d ds =>
+          cases hp : p.isEllipsis
+          · rw [matchStream_step_ne hp]
+            obtain ⟨np, kp⟩ := ihD p d σ
+            simp only [Pat.varsList]
+            split
+            · rename_i e he
+              refine ⟨fun s l h => ?_, fun b σ' h => by cases h⟩
+              cases h; exact np _ _ he
+            · rename_i σ1 he
+              refine ⟨fun s l h => (by cases h), fun b σ' h => ?_⟩
+              cases h; exact (kp _ _ he).weakenR
+            · rename_i σ1 he
+              have k1 := kp _ _ he
+              have hmm' : MMInv lits (nextMM lits p) σ1 := by
+                intro mp hmp
+                have : mp = p := by
+                  unfold nextMM at hmp
+                  split at hmp
+                  · split at hmp <;> simp_all
+                  · simp_all
+                subst this
+                exact k1.all rfl
+              obtain ⟨np2, kp2⟩ := ihS ps ds (nextMM lits p) σ1 hmm'
+              exact ⟨np2, fun b σ' h => k1.seq (kp2 _ _ h)⟩
+          · cases p <;> simp [Pat.isEllipsis] at hp
+            cases n with
+            | zero => rw [matchStream_ell_one]; simp
+            | succ n =>
+              cases mm with
+              | none => rw [matchStream_ell_none]; simp
+              | some mp =>
+                rw [matchStream_step_ell]
+                obtain ⟨np, kp⟩ := ihD mp d []
+                have hvl : Pat.varsList lits (Pat.ellipsis :: ps) = Pat.varsList lits ps := by
+                  simp [Pat.varsList, Pat.vars]
+                split
+                · rename_i e he
+                  refine ⟨fun s l h => ?_, fun b σ' h => by cases h⟩
+                  cases h; exact np _ _ he
+                · refine ⟨fun s l h => (by cases h), fun b σ' h => ?_⟩
+                  cases h; exact KInv.refl_false
+                · rename_i τ he
+                  have kτ := kp _ _ he
+                  have hsub : ∀ k ∈ Subst.keys τ, k ∈ Subst.keys σ := by
+                    intro k hk
+                    rcases kτ.only k hk with h | h
+                    · simp at h
+                    · exact hmm mp rfl k h
+                  obtain ⟨σ2, hσ2⟩ := pushAll_isSome hsub
+                  have hk2 := pushAll_keys hσ2
+                  rw [hσ2]
+                  simp only []
+                  have hmm2 : MMInv lits (some mp) σ2 := by
+                    intro mp' h x hx; rw [hk2]; exact hmm mp' h x hx
+                  obtain ⟨np2, kp2⟩ := ihS (Pat.ellipsis :: ps) ds (some mp) σ2 hmm2
+                  split
+                  · rename_i e he2
+                    refine ⟨fun s l h => ?_, fun b σ' h => by cases h⟩
+                    cases h; exact np2 _ _ he2
+                  · rename_i σ3 he2
+                    refine ⟨fun s l h => (by cases h), fun b σ' h => ?_⟩
+                    cases h; exact (kp2 _ _ he2).of_keys_eq hk2
+                  · rename_i σ3 he2
+                    have k3 := (kp2 _ _ he2).of_keys_eq hk2
+                    rw [hvl] at k3 ⊢
+                    have hmm3 : MMInv lits (some mp) σ3 := by
+                      intro mp' h x hx; exact k3.mono _ (hmm mp' h x hx)
+                    obtain ⟨np3, kp3⟩ := ihS ps ds (some mp) σ3 hmm3
+                    exact ⟨np3, fun b σ' h => k3.trans (kp3 _ _ h)⟩
+
+/-- **no `unwrap` panic**, for all patterns, data, literals, tables and fuel -/
+theorem matchDatum_no_panic {lits n p d σ s l} :
+    matchDatum n lits p d σ ≠ .error (.panic s, l) :=
+  ((match_keys_aux lits n).1 p d σ).1 s l
+
+theorem matchDatum_keys {lits n p d σ b σ'} (h : matchDatum n lits p d σ = .ok (b, σ')) :
+    KInv (p.vars lits) σ b σ' :=
+  ((match_keys_aux lits n).1 p d σ).2 b σ' h
+
+theorem matchStream_no_panic {lits n ps ds mm σ s l} (h : MMInv lits mm σ) :
+    matchStream n lits ps ds mm σ ≠ .error (.panic s, l) :=
+  ((match_keys_aux lits n).2 ps ds mm σ h).1 s l
+
 end Ruschm.Macro
